@@ -404,6 +404,16 @@ pub fn sign_raw(header_json: &Value, payload: &Value, alg: jsonwebtoken::Algorit
     format!("{msg}.{sig}")
 }
 
+/// Sign literal header / payload TEXT (not re-serialised): tokens whose JSON is spelled with
+/// escapes or white space that no serialiser in the library would emit.
+pub fn sign_text(header_text: &str, payload_text: &str, alg: jsonwebtoken::Algorithm, key: &jsonwebtoken::EncodingKey) -> String {
+    let h = crate::model::b64e(header_text.as_bytes());
+    let p = crate::model::b64e(payload_text.as_bytes());
+    let msg = format!("{h}.{p}");
+    let sig = jsonwebtoken::crypto::sign(msg.as_bytes(), key, alg).expect("raw sign");
+    format!("{msg}.{sig}")
+}
+
 pub fn now() -> u64 {
     jsonwebtoken::get_current_timestamp()
 }
